@@ -1,7 +1,7 @@
 import CalicoVerif.Util.Proto
 import CalicoVerif.Model.C21
 /-! Driver for C21. Ops (one per line; `<h>` = `nil` | `s:<chars>` with `R` = '\r'):
-  `new <n> <seq0>` | `newr <n> <seq0> <start> <end> <h> <note>` | `bump` | `tick <d>` | `gc <cd>`
+  `new <n> <seq0>` | `empty` | `newr <n> <seq0> <start> <end> <h> <note>` | `bump` | `tick <d>` | `gc <cd>`
   `auto <num> <h> <owner> <reserved:-|o,o,..>` | `assign <ord> <h> <owner>`
   `rel <cd> <ord>/<seq|->/<h>...` | `relh <cd> <h> <seq|->`
 Output: `<result> | <canonical block dump>`.
@@ -109,6 +109,7 @@ def step' (s : St) (line : String) : St × String :=
     | some n, some q, some a, some e, some (some h), some note =>
       out (newBlock n q (some (a, e, h, note))) "ok" { s with now := 0 }
     | _, _, _, _, _, _ => bad
+  | ["empty"] => (s, showBool s.blk.isEmpty ++ " | " ++ dump s.blk)
   | ["bump"] => let s' := step s .bump; (s', "ok | " ++ dump s'.blk)
   | ["tick", d] =>
     match d.toNat? with
